@@ -63,9 +63,12 @@ def replay(ctx, obj):
 
 
 # ---------------------------------------------------------------------------------------------
-def cases_from_notetrack(ctx, behaviours, prop, r):
-    """Concretise terminal states of NoteTrack.tla."""
+def cases_from_notetrack(ctx, behaviours, prop, r, limit=None):
+    """Concretise terminal states of NoteTrack.tla (a seeded slice of them if limit is given)."""
     out = []
+    if limit is not None and len(behaviours) > limit:
+        behaviours = r.sample(behaviours, limit)
+        ctx.count("behaviours_sampled_not_all")
     for k, b in enumerate(behaviours):
         groups = {}
         for d in b["datas"]:
